@@ -448,17 +448,20 @@ def u_constraints(root):
             e.write_field(st, me_, "_fit_param_names_bad_default", VPySet(frozenset(["a", "c"])))
             return args
         return init
-    for name in ("b", "c", "nope"):
+    for name, rel in (("b", False), ("c", False), ("nope", False), ("b", True)):
         c = Contract("FitBase", "add_parameter_constraint")
 
-        def post(vw, name=name):
+        def post(vw, name=name, rel=rel):
             lst = vw.f(vw.post, vw.self, "_fit_param_constraints")
             if name not in NAMES:
                 return [("an unknown parameter name is rejected", z3.BoolVal(vw.flow == "raise")), ("... and neither the list nor the graph is touched", z3.BoolVal(len(lst.items) == 1 and not marked(vw)))]
             return [("accepted", z3.BoolVal(vw.flow != "raise")), ("exactly one constraint is appended, for the index of the named parameter", z3.BoolVal(len(lst.items) == 2 and len(made) == 1 and z3.simplify(made[0][1]["index"].e).as_long() == NAMES.index(name))),
-                    ("the node that hides the constraint list is marked for update (the cost is recomputed with the new constraint)", z3.BoolVal("parameter_constraints" in marked(vw)))]
+                    ("the node that hides the constraint list is marked for update (the cost is recomputed with the new constraint)", z3.BoolVal("parameter_constraints" in marked(vw))),
+                    ("value, uncertainty and the relative flag reach the constraint object exactly as declared (the constraint class does the relative -> absolute conversion, proved in C14)",
+                     z3.And(made[0][1]["value"].real() == z3.Real("cv"), made[0][1]["uncertainty"].real() == z3.Real("cu"), vw.eng.truth(made[0][1]["relative"]) == z3.BoolVal(rel))
+                     if len(made) == 1 and all(k_ in made[0][1] and isinstance(made[0][1][k_], VNum) for k_ in ("value", "uncertainty")) and "relative" in made[0][1] else z3.BoolVal(False))]
         c.ensures.append(post)
-        eng.verify("FitBase", "add_parameter_constraint", None, init_for({"name": VStr(name), "value": VNum(z3.Real("cv")), "uncertainty": VNum(z3.Real("cu"))}), contract=c, tag=f"({name})")
+        eng.verify("FitBase", "add_parameter_constraint", None, init_for(dict({"name": VStr(name), "value": VNum(z3.Real("cv")), "uncertainty": VNum(z3.Real("cu"))}, **({"relative": VBool(z3.BoolVal(True))} if rel else {}))), contract=c, tag=f"({name}{', relative' if rel else ''})")
     for names in (("a", "c"), ("c", "nope"), ("a",)):
         c = Contract("FitBase", "add_matrix_parameter_constraint")
         vals = VTuple([VNum(z3.Real("v0")), VNum(z3.Real("v1"))])
